@@ -263,13 +263,32 @@ impl C16 {
         // (time, file idx, content) written so far
         let writes: Arc<Mutex<Vec<(u64, usize, Vec<u8>)>>> = Arc::new(Mutex::new((0..files.len()).map(|i| (0u64, i, content(99, i, 24))).collect()));
         let results: Arc<Mutex<Vec<(u64, u64, usize, u16, Vec<u8>, String)>>> = Arc::new(Mutex::new(Vec::new()));
+        // (retrievable bytes, retrievable entries) seen by sweeps over every (uri, host) under one read lock
+        let sweeps: Arc<Mutex<Vec<(usize, usize)>>> = Arc::new(Mutex::new(Vec::new()));
+        let sw2 = sweeps.clone();
         let (w2, r2, scn2, files2, dir2) = (writes.clone(), results.clone(), scn.clone(), files.clone(), dir.clone());
         let outcome = sim::run(scn.sim.to_config(), move || {
             let state = Arc::new(AppState::from(cfg));
+            let sweep = {
+                let (state, files, sw) = (state.clone(), files2.clone(), sw2.clone());
+                move || {
+                    let c = state.cache.read().unwrap();
+                    let (mut total, mut hits) = (0usize, 0usize);
+                    for f in files.iter() {
+                        if let Some(it) = c.get(&f.2, f.3) {
+                            total += it.data.len();
+                            hits += 1;
+                        }
+                    }
+                    drop(c);
+                    sw.lock().unwrap().push((total, hits));
+                }
+            };
             let mut hs = Vec::new();
             for (tid, ops) in scn2.threads.iter().enumerate() {
                 let (state, ops, files, w, r, dir) = (state.clone(), ops.clone(), files2.clone(), w2.clone(), r2.clone(), dir2.clone());
                 let limit = scn2.limit;
+                let sweep = sweep.clone();
                 hs.push(humsim::thread::spawn(move || {
                     for (i, o) in ops.iter().enumerate() {
                         let fi = o.key % files.len();
@@ -297,6 +316,9 @@ impl C16 {
                                 let ct = resp.headers.get("Content-Type").unwrap_or("").to_string();
                                 let t1 = now_secs();
                                 r.lock().unwrap().push((t0, t1, fi, u16::from(resp.status_code), resp.body.clone(), ct));
+                                if o.op == "sweep" {
+                                    sweep();
+                                }
                             }
                             "advance" => {
                                 sim::wall_jump_ns(o.ms * 1_000_000);
@@ -310,9 +332,17 @@ impl C16 {
             for h in hs {
                 let _ = h.join();
             }
+            sweep();
         });
         rr.absorb(&outcome);
         let _ = std::fs::remove_dir_all(&dir);
+        for (total, hits) in sweeps.lock().unwrap().iter() {
+            rr.count("c16.handler_sweeps", 1);
+            if *total > scn.limit {
+                rr.violate("C16/R3", "retrievable-total-exceeds-limit:handlers", format!("after requests through the handlers {} entries totalling {} bytes are retrievable with a size limit of {}", hits, total, scn.limit));
+                break;
+            }
+        }
         if outcome.status != sim::EndStatus::Completed || !outcome.panics.is_empty() {
             let p: Vec<String> = outcome.panics.iter().map(|p| format!("{}: {} at {}", p.thread, p.message, p.location)).collect();
             rr.violate("C16/R0", "handler-run-failed", format!("{:?}; panics {:?}", outcome.status, p));
@@ -370,7 +400,7 @@ impl Prop for C16 {
         }
     }
     fn rule(&self) -> &'static str {
-        "One case = a history of set/get/sweep/clock-advance operations (length <= 200, thorough <= 2000) over 32 keys x 2 hosts with sizes 0..limit, limits 0..64 KiB, time limits {0,1,60}, issued by 1..8 simulated threads through the real RwLock<Cache> (write lock for set, read lock for get, as the handlers do) under a seeded schedule, with wall-clock jumps landing just before / on / after second boundaries and age limits; every operation is stamped with a sequence number taken while the lock is held, which gives the linearisation order. One case in eight instead drives the real file_handler / directory_handler with a cache-enabled AppState over real files rewritten between requests: two file routes with the same uri on two hosts, two directory routes holding files with the same relative names and an index file each, and a file route whose uri equals a relative name inside the directories. Distinct = distinct hit/miss/set/sweep pattern; non-trivial = at least three operations."
+        "One case = a history of set/get/sweep/clock-advance operations (length <= 200, thorough <= 2000) over 32 keys x 2 hosts with sizes 0..limit, limits 0..64 KiB, time limits {0,1,60}, issued by 1..8 simulated threads through the real RwLock<Cache> (write lock for set, read lock for get, as the handlers do) under a seeded schedule, with wall-clock jumps landing just before / on / after second boundaries and age limits; every operation is stamped with a sequence number taken while the lock is held, which gives the linearisation order. One case in eight instead drives the real file_handler / directory_handler with a cache-enabled AppState over real files rewritten between requests: two file routes with the same uri on two hosts, two directory routes holding files with the same relative names and an index file each, and a file route whose uri equals a relative name inside the directories; 1..6 threads request concurrently, and sweeps look every (uri, host) up under one read lock and add the sizes up (also once after the last request). Distinct = distinct hit/miss/set/sweep pattern; non-trivial = at least three operations."
     }
     fn assumptions(&self) -> Vec<String> {
         vec![
@@ -381,7 +411,7 @@ impl Prop for C16 {
         ]
     }
     fn expected_counters(&self) -> Vec<&'static str> {
-        vec!["c16.sets", "c16.gets", "c16.hits", "c16.sweeps", "c16.miss_because_stale", "c16.hit_exactly_at_age_limit", "c16.multi_thread_histories", "c16.handler_requests", "c16.file_changed_between_requests", "clock_jump"]
+        vec!["c16.sets", "c16.gets", "c16.hits", "c16.sweeps", "c16.miss_because_stale", "c16.hit_exactly_at_age_limit", "c16.multi_thread_histories", "c16.handler_requests", "c16.handler_sweeps", "c16.file_changed_between_requests", "clock_jump"]
     }
     fn real_vs_stub(&self) -> (Vec<&'static str>, Vec<&'static str>) {
         (vec!["humphrey_server::cache::Cache::{get,set}", "humphrey_server::static::{file_handler, directory_handler, cache_check, inner_file_handler}", "AppState, Logger", "std::fs"], vec!["RwLock blocking/scheduling (humsim)", "SystemTime (virtual wall clock)"])
@@ -399,7 +429,7 @@ impl Prop for C16 {
         } as usize;
         let limit = if handlers { limit.max(10) } else { limit };
         let time_limit = [0usize, 1, 60][rng.usize_below(3)];
-        let nthreads = if rng.chance(1, 2) { 1 } else { rng.range(2, if handlers { 3 } else { 8 }) } as usize;
+        let nthreads = if rng.chance(1, 2) { 1 } else { rng.range(2, if handlers { 6 } else { 8 }) } as usize;
         let maxops = if handlers { 30 } else if tier == Tier::Quick { 200 } else if rng.chance(1, 50) { 2000 } else { 200 };
         let total_ops = rng.range(3, maxops) as usize;
         let nkeys = [2usize, 3, 8, 32][rng.usize_below(4)];
